@@ -77,6 +77,31 @@ def run(cmd, cwd=None, timeout=None, env=None, check=True):
     return p
 
 
+def run_resumable(cmd, wd, name, timeout=3 * 3600, max_dead=6):
+    """Run a driver that notes the case it is about to execute in <wd>/current.txt. A case that hangs makes the driver stop
+    at once (exit 5, "<case>:hang" noted); a case that ends the process with a fatal error (stack overflow ...) is found
+    noted. The run is started again with those cases reported as hang / crash instead of executed. A death that cannot be
+    attributed to a case is inconclusive (exit 2), never a violation."""
+    dead = []
+    while True:
+        shutil.rmtree(wd, ignore_errors=True)
+        p = run(cmd + (["-crashed", ",".join(dead)] if dead else []), timeout=timeout, check=False)
+        if p.returncode == 0:
+            return dead
+        cur = os.path.join(wd, "current.txt")
+        if not os.path.exists(cur) or len(dead) >= max_dead:
+            raise Inconclusive("%s failed (%d):\n%s" % (cmd[1], p.returncode, p.stderr[-3000:]))
+        c = open(cur).read().strip()
+        if not c.endswith(":hang"):
+            if "fatal error" not in p.stderr and "panic:" not in p.stderr:
+                raise Inconclusive("%s failed (%d):\n%s" % (cmd[1], p.returncode, p.stderr[-3000:]))
+            c += ":crash"
+        if c in dead:
+            raise Inconclusive("%s died twice on the same case: %s" % (cmd[1], c))
+        log("[%s] %s: the driver process ended while running case %s - run started again without it" % (cmd[1], name, c))
+        dead.append(c)
+
+
 def tlc(wd, module, cfg_text, timeout=600, workers=1, heap="3g", extra_args=(), simulate=None):
     """Run TLC on spec/<module>.tla inside scratch dir wd (the trace/vector files live there).
     Returns dict(out, states, distinct, depth, violated, error)."""
